@@ -32,6 +32,10 @@ import (
 //       r<K> = raw IPC size + K (K may be negative), absent = default
 //       externalize, serve the uploaded object from a local TLS origin (tampered per <mode>),
 //       then ResolveExternalLocation on the returned pointer. Emits an `ext` and a `res` line.
+//   hist alg=<-|zstd> level=<n> items=<batch>|<batch>|... order=<i,j,...>
+//       externalizes the items one after the other into ONE in-memory storage that RETAINS the byte
+//       slice it is handed (no copy), then resolves the pointers in the given order (indices into
+//       items, repeats allowed); every pointer must resolve to its own original.
 //   res cfg=<0|1> val=<nil|ok|rej|https> prows=<n> pmeta=<symbolic meta> sha=<mode> scheme=<https|http>
 //       status=<code> enc=<plain|zstd|zcorrupt> tamper=<mode> schema=<k> stream=<batch;batch;...|->
 //       builds an IPC stream from the batches, serves it, resolves a hand-made pointer to it.
@@ -54,7 +58,7 @@ func init() {
 		Exec: c30Exec,
 		NonTrivial: func(lines []string) bool {
 			for _, l := range lines {
-				if strings.HasPrefix(l, "rt ") || strings.HasPrefix(l, "res ") {
+				if strings.HasPrefix(l, "rt ") || strings.HasPrefix(l, "res ") || strings.HasPrefix(l, "hist ") {
 					return true
 				}
 			}
@@ -316,12 +320,20 @@ func c30NewPath() string {
 
 type c30Storage struct {
 	fail    bool
+	retain  bool // keep the very slice that was handed over (like an in-memory backend), no copy
 	uploads []c30Object
 	url     string
 }
 
+// c30Hist: set while a `hist` line runs — one retaining storage shared by all its externalizations.
+var c30Hist *c30Storage
+
 func (s *c30Storage) Upload(data []byte, schema *arrow.Schema, enc string) (string, error) {
-	s.uploads = append(s.uploads, c30Object{body: append([]byte(nil), data...), enc: enc})
+	body := data
+	if !s.retain {
+		body = append([]byte(nil), data...)
+	}
+	s.uploads = append(s.uploads, c30Object{body: body, enc: enc})
 	if s.fail {
 		return "", fmt.Errorf("storage unavailable")
 	}
@@ -496,6 +508,10 @@ func c30DoExt(c *Case, kv map[string]string) (ptr arrow.RecordBatch, ptrMeta arr
 	}
 	level, _ := strconv.Atoi(kv["level"])
 	st = &c30Storage{fail: kv["upfail"] == "1"}
+	if c30Hist != nil {
+		st = c30Hist
+	}
+	uploadsBefore := len(st.uploads)
 	var cfg *vgirpc.ExternalLocationConfig
 	if kv["cfg"] == "1" {
 		cfg = &vgirpc.ExternalLocationConfig{ExternalizeThresholdBytes: thr}
@@ -511,8 +527,8 @@ func c30DoExt(c *Case, kv map[string]string) (ptr arrow.RecordBatch, ptrMeta arr
 	// environment values for the model: the raw bytes that were (or would have been) uploaded
 	rawlen, sha, dataKind := 0, "", "none"
 	var up *c30Object
-	if len(st.uploads) > 0 {
-		up = &st.uploads[0]
+	if len(st.uploads) > uploadsBefore {
+		up = &st.uploads[len(st.uploads)-1]
 		payload, ok := up.body, true
 		if up.enc == "zstd" {
 			payload, ok = c30Zdec(up.body)
@@ -573,8 +589,8 @@ func c30DoExt(c *Case, kv map[string]string) (ptr arrow.RecordBatch, ptrMeta arr
 	case out == orig:
 		c.Stat("ext-inline")
 		c.Out(modelLine, "inline")
-		if charged != 0 || len(st.uploads) != 0 {
-			c.Oracle("inline-but-uploaded", fmt.Sprintf("batch returned inline, charged=%d uploads=%d", charged, len(st.uploads)))
+		if charged != 0 || len(st.uploads) != uploadsBefore {
+			c.Oracle("inline-but-uploaded", fmt.Sprintf("batch returned inline, charged=%d uploads=%d", charged, len(st.uploads)-uploadsBefore))
 		}
 		if shouldExt {
 			c.Oracle("inline-at-or-above-threshold", fmt.Sprintf("buf=%d threshold=%d rows=%d stayed inline", buf, effThr, orig.NumRows()))
@@ -729,7 +745,11 @@ func c30DoRes(c *Case, cfgOn bool, val string, ptr arrow.RecordBatch, pm arrow.M
 				c.Oracle("tampered-download-accepted", "the download differs from the upload and the pointer has a checksum, yet a batch was returned")
 			}
 			if !tampered && !c30SameBatch(got, orig) {
-				c.Oracle("roundtrip-not-equal", fmt.Sprintf("resolved %s, original %s", v, c30View(orig)))
+				if c30Hist != nil {
+					c.Oracle("resolved-data-of-another-upload", fmt.Sprintf("resolved %s, but this pointer was made for %s", v, c30View(orig)))
+				} else {
+					c.Oracle("roundtrip-not-equal", fmt.Sprintf("resolved %s, original %s", v, c30View(orig)))
+				}
 			}
 		}
 		got.Release()
@@ -740,6 +760,14 @@ func c30DoRes(c *Case, cfgOn bool, val string, ptr arrow.RecordBatch, pm arrow.M
 	}
 	if orig != nil && !tampered && shaConsistent && err != nil && cfgOn && c30ValToken(val, url) != "rej" && fetchOK {
 		c.Oracle("roundtrip-refused", fmt.Sprintf("untampered externalized batch failed to resolve: %v", err))
+	}
+	if c30Hist != nil && orig != nil && err != nil {
+		// the storage is honest (it serves the object it was given, under its encoding): every pointer must resolve
+		cl := "pointer-of-honest-storage-refused"
+		if c30ResErrClass(err) == "err:checksum" {
+			cl = "checksum-mismatch-on-honest-storage"
+		}
+		c.Oracle(cl, fmt.Sprintf("an object stored by a slice-retaining backend no longer resolves: %v", err))
 	}
 	for _, r := range recs {
 		r.Release()
@@ -824,6 +852,49 @@ func c30Exec(c *Case) {
 			c30Objects.Delete(path)
 			ptr.Release()
 			orig.Release()
+		case "hist":
+			// externalize every item into ONE storage that retains the slices it is given, then resolve
+			// all pointers in the given order; each must yield its own original
+			st := &c30Storage{retain: true}
+			c30Hist = st
+			type item struct {
+				ptr  arrow.RecordBatch
+				pm   arrow.Metadata
+				orig arrow.RecordBatch
+				up   int
+				url  string
+			}
+			var items []item
+			for _, b := range strings.Split(kv["items"], "|") {
+				kvi := map[string]string{"cfg": "1", "storage": "1", "thr": "abs:1", "alg": kv["alg"], "level": kv["level"], "upfail": "0", "b": b}
+				ptr, pm, _, orig := c30DoExt(c, kvi)
+				if ptr == nil {
+					orig.Release()
+					continue
+				}
+				items = append(items, item{ptr, pm, orig, len(st.uploads) - 1, st.url})
+			}
+			for _, tok := range strings.Split(kv["order"], ",") {
+				i, err := strconv.Atoi(tok)
+				if err != nil || i < 0 || i >= len(items) {
+					continue
+				}
+				it := items[i]
+				obj := st.uploads[it.up] // the retained slice as it is NOW
+				decoded, fetchOK := obj.body, true
+				if obj.enc == "zstd" {
+					decoded, fetchOK = c30Zdec(obj.body)
+				}
+				path := strings.TrimPrefix(it.url, c30Origin().URL)
+				c30Objects.Store(path, c30Object{body: obj.body, enc: obj.enc})
+				c30DoRes(c, true, "ok", it.ptr, it.pm, it.url, fetchOK, decoded, it.orig, false)
+				c30Objects.Delete(path)
+			}
+			for _, it := range items {
+				it.ptr.Release()
+				it.orig.Release()
+			}
+			c30Hist = nil
 		case "res":
 			kind, _ := strconv.Atoi(kv["schema"])
 			schema := c30Schema(kind)
@@ -1046,6 +1117,42 @@ func c30Gen(g *Gen) {
 		md := Pick(r, []string{"r+0", "r+1", "r+1000", "r-1", "r+0", "r+5000", "e+0"})
 		g.Case(fmt.Sprintf("rt cfg=1 storage=1 thr=abs:1 alg=%s level=%d upfail=0 b=%d/%d/%d/- val=%s tamper=none sha=keep mf=%s md=%s",
 			alg, Pick(r, []int{0, 1, 3}), Pick(r, []int{0, 1, 5}), rows, r.Range(1, 999), Pick(r, []string{"nil", "ok"}), mf, md))
+	}
+	// (b3) histories: several externalizations into one slice-retaining storage, resolved afterwards
+	// in arbitrary order
+	for i := 0; i < g.N(40, 400); i++ {
+		k := r.Range(2, 6)
+		var items, order []string
+		for j := 0; j < k; j++ {
+			items = append(items, fmt.Sprintf("%d/%d/%d/%s", Pick(r, []int{0, 0, 1, 2, 5, 6}), Pick(r, []int{1, 3, 16, 64, 64, 200, 1000, 3000}), r.Range(1, 999),
+				c30GenMeta(r, Pick(r, []string{"none", "none", "app"}))))
+			order = append(order, strconv.Itoa(j))
+		}
+		for j := k - 1; j > 0; j-- {
+			x := r.Intn(j + 1)
+			order[j], order[x] = order[x], order[j]
+		}
+		if r.Chance(30) {
+			order = append(order, strconv.Itoa(r.Intn(k)))
+		}
+		alg := "-"
+		if r.Chance(20) {
+			alg = "zstd"
+		}
+		g.Case(fmt.Sprintf("hist alg=%s level=%d items=%s order=%s", alg, Pick(r, []int{0, 1, 3}), strings.Join(items, "|"), strings.Join(order, ",")))
+	}
+	// (b4) large compressible batches (raw IPC of 5 MiB and more) through the zstd round trip at every
+	// encoder level: the decoder must cope with whatever window the encoder chose
+	{
+		lv := Pick(r, []int{0, 2, 3, 4})
+		g.Case(fmt.Sprintf("rt cfg=1 storage=1 thr=abs:1 alg=zstd level=%d upfail=0 b=0/%d/%d/- val=ok tamper=none sha=keep", lv, 5*131072+r.Range(1, 5000), r.Range(1, 999)))
+		if g.Thorough() {
+			for _, rows := range []int{5 * 131072, 9 * 131072, 17 * 131072} {
+				for _, level := range []int{0, 1, 2, 3, 4} {
+					g.Case(fmt.Sprintf("rt cfg=1 storage=1 thr=abs:1 alg=zstd level=%d upfail=0 b=%d/%d/%d/- val=nil tamper=none sha=keep", level, Pick(r, []int{0, 5}), rows+r.Range(1, 999), r.Range(1, 999)))
+				}
+			}
+		}
 	}
 	// (c) fetched streams: random arrangements
 	for i := 0; i < g.N(300, 4000); i++ {
